@@ -992,6 +992,29 @@ Proof.
   rewrite Ha, E in Ht. cbn [orb negb] in Ht. destruct (Hr E) as [Hj _]. now rewrite Hj.
 Qed.
 
+(* the rule for an inline note link, spelled out: destination, resolution and text all speak of K, the note the
+   typed url names from the note's directory *)
+Corollary C06_inline_rule ctx dir d g lt :
+  link_rule ctx dir d g -> o_kind d = KNote lt ->
+  let K := from_rel_link_url (o_dest d) dir in
+  is_ref_url K = true ->
+  o_dest g = to_rel_link_url K dir /\
+  join_normalized dir (o_dest g) = K /\
+  (forall ext, ext = MD \/ ext = "" -> from_rel_link_url (ref_url (o_dest g) ext) dir = K) /\
+  (o_alt d = false ->
+   o_text g = match lt with
+              | Regular => match ctx K with Some t => [Str t] | None => kept_text dir (o_text d) end
+              | WikiLink => []
+              | WikiLinkPiped => kept_text dir (o_text d)
+              end).
+Proof.
+  unfold link_rule. intros H Hk. cbv zeta. intros E. rewrite Hk in H. cbv zeta in H.
+  destruct H as (_ & Hd & _ & Hr & Ht).
+  rewrite E in Hd, Ht. destruct (Hr E) as [Hj Hw].
+  split; [exact Hd|]. split; [exact Hj|]. split; [exact Hw|].
+  intros Ha. rewrite Ha in Ht. exact Ht.
+Qed.
+
 (* what is written for a note link or a block reference resolves, from [dir], to the key the typed url resolved
    to: either extension, every key (for an inline link: every key that is a note url, see [link_rule]) *)
 Corollary C06_written_resolves ctx dir d g ext :
